@@ -77,7 +77,8 @@ Definition spec_value_ok (t : proto_type) (v : val) : bool :=
   | (TYPE_UINT32 | TYPE_FIXED32 | TYPE_FLOAT), VI z => (0 <=? z) && (z <? 2 ^ 32)
   | (TYPE_UINT64 | TYPE_FIXED64 | TYPE_DOUBLE), VI z => (0 <=? z) && (z <? 2 ^ 64)
   | TYPE_BOOL, VI z => (z =? 0) || (z =? 1)
-  | (TYPE_STRING | TYPE_BYTES), VB l => Z.of_nat (length l) <? 2 ^ 64
+  | TYPE_STRING, VB l => (Z.of_nat (length l) <? 2 ^ 64) && utf8_valid l      (* "a string must always contain UTF-8 encoded text" *)
+  | TYPE_BYTES, VB l => Z.of_nat (length l) <? 2 ^ 64
   | _, _ => false
   end.
 
@@ -204,7 +205,8 @@ Definition spec_scalar_value (t : proto_type) (p : spayload) : option val :=
   | TYPE_SFIXED32, PI32 bs => Some (VI (spec_signed 32 (spec_of_le bs)))
   | (TYPE_FIXED64 | TYPE_DOUBLE), PI64 bs => Some (VI (spec_of_le bs))
   | TYPE_SFIXED64, PI64 bs => Some (VI (spec_signed 64 (spec_of_le bs)))
-  | (TYPE_STRING | TYPE_BYTES), PLen bs => Some (VB bs)
+  | TYPE_STRING, PLen bs => if utf8_valid bs then Some (VB bs) else None
+  | TYPE_BYTES, PLen bs => Some (VB bs)
   | _, _ => None
   end.
 
